@@ -200,6 +200,20 @@ func NewClient(conn io.ReadWriteCloser, o ...ClientOpt) (*Client, error) {
 			return nil, ErrBadVersionString
 		}
 		c.version = version
+
+		// Adopt the message size the server announced: it may be lower
+		// than what we asked for, and everything we send from now on (and
+		// every reply we ask for) has to fit in it.
+		if rversion.MSize < c.messageSize {
+			if rversion.MSize <= msgDotLRegistry.largestFixedSize {
+				return nil, &ErrMessageTooLarge{
+					size:  rversion.MSize,
+					msize: msgDotLRegistry.largestFixedSize,
+				}
+			}
+			c.messageSize = rversion.MSize
+			c.payloadSize = roundDown(c.messageSize-msgDotLRegistry.largestFixedSize, 512)
+		}
 		break
 	}
 	return c, nil
